@@ -347,8 +347,8 @@ class C05(Prop):
     named_errors = {"Null"}                     # "a zero address always yields the null error"; read vs slice: see oracle
     pid = "C05"
     title = "VA / RVA / typed reads"
-    thm_modules = ["PeliteModel.Thm.C05", "PeliteModel.Thm.C05Complete", "PeliteModel.Thm.C05SliceF"]
-    gens = [gen_img.gen_c05, gen_img.gen_partial_slot]
+    thm_modules = ["PeliteModel.Thm.C05", "PeliteModel.Thm.C05Complete", "PeliteModel.Thm.C05SliceF", "PeliteModel.Thm.C05Ptr"]
+    gens = [gen_img.gen_c05, gen_img.gen_partial_slot, gen_pure.gen_ptr]
 
     def begin_case(self, case):
         self.last_slice = None
